@@ -116,3 +116,17 @@ claim("C18", "other",
       "accuracy of math.log/**; log-space to linear-space step is the calculus bound |e^d-1|<=2|d|; references "
       "are concrete (the library hashes them).",
       "shadow-symbolic execution with UF ln/exp + z3", "DESIGN.md 4/C18", "symnum")
+
+claim("C01", "proof",
+      "Inductive invariant Inv(u): dimension == product of factor dimensions. Every site that can reach the "
+      "Unit constructor (found by an AST scan; an unharnessed site is a harness error) is run as REAL code on "
+      "shadow operands satisfying Inv, with the intern tables replaced by a write-logging map model and with "
+      "unbounded symbolic factor exponents, powers, root degrees, prefix exponents and base-unit dimension "
+      "vectors; z3 proves that whatever is handed to the constructor satisfies Inv on every path, that equal "
+      "keys imply equal dimensions (history independence), and the real __new__/__init__ of Unit, Dimension "
+      "and Prefix are checked against the table model. One inductive step covers operation sequences of any length.",
+      "<= 3 base units per operand; base-unit dimension vectors symbolic at 3 of 9 positions at a time "
+      "(rotated) or taken from registered base units; root degree symbolic for <= 2 factors and enumerated "
+      "in [-3,4] for 3 factors; JSON documents not produced by __json__ outside; error-message formatting stubbed.",
+      "symbolic execution of real operators on shadow instances with table models + z3 (NIA/LIA)",
+      "DESIGN.md 4/C01", "internmodel")
